@@ -465,6 +465,13 @@ func fnName(fn *ssa.Function) string {
 
 func (m *Machine) callSSA(caller *frame, pos token.Pos, fn *ssa.Function, args []Value, env []Value) Value {
 	name := fnName(fn)
+	// a stub written in the harness overrides the engine's own model of the function
+	if len(harnessStubs) > 0 {
+		if st := harnessStubs[sanitizeName(name)]; st != nil && st != fn {
+			m.stubs[name+" (harness stub)"]++
+			return m.callSSA(caller, pos, st, args, nil)
+		}
+	}
 	if in, ok := intrinsics[name]; ok {
 		m.stubs[name]++
 		return in(m, caller, fn, args)
@@ -472,12 +479,6 @@ func (m *Machine) callSSA(caller *frame, pos token.Pos, fn *ssa.Function, args [
 	if pi := prefixIntrinsic(name); pi != nil {
 		m.stubs[name]++
 		return pi(m, caller, fn, args)
-	}
-	if len(harnessStubs) > 0 {
-		if st := harnessStubs[sanitizeName(name)]; st != nil && st != fn {
-			m.stubs[name+" (harness stub)"]++
-			return m.callSSA(caller, pos, st, args, nil)
-		}
 	}
 	if fn.Blocks == nil {
 		if fn.Pkg != nil {
